@@ -591,6 +591,7 @@ def _equality_joint(is_sparse: bool, newton: bool):
       efc_J_rownnz_out[worldid, efcid] = rownnz
       rowadr = wp.atomic_add(efc_nnz_out, worldid, rownnz)
       if rowadr + rownnz > njmax_nnz_in:
+        efc_J_rownnz_out[worldid, efcid] = 0  # dropped row: never read efc.J through a stale address
         return
       efc_J_rowadr_out[worldid, efcid] = rowadr
       efc_J_colind_out[worldid, 0, rowadr] = dofadr1
@@ -931,6 +932,7 @@ def _equality_flex(is_sparse: bool, newton: bool):
       efc_J_rownnz_out[worldid, efcid] = rownnz
       efc_rowadr = wp.atomic_add(efc_nnz_out, worldid, rownnz)
       if efc_rowadr + rownnz > njmax_nnz_in:
+        efc_J_rownnz_out[worldid, efcid] = 0  # dropped row: never read efc.J through a stale address
         return
       efc_J_rowadr_out[worldid, efcid] = efc_rowadr
       for i in range(rownnz):
@@ -1686,6 +1688,7 @@ def _equality_flexstrain(is_sparse: bool, newton: bool):
         efc_J_rownnz_out[worldid, efcid] = rownnz
         efc_rowadr = wp.atomic_add(efc_nnz_out, worldid, rownnz)
         if efc_rowadr + rownnz > njmax_nnz_in:
+          efc_J_rownnz_out[worldid, efcid] = 0  # dropped row: never read efc.J through a stale address
           return
         efc_J_rowadr_out[worldid, efcid] = efc_rowadr
       else:
@@ -1838,6 +1841,7 @@ def _friction_dof(is_sparse: bool, newton: bool):
       efc_J_rownnz_out[worldid, efcid] = 1
       rowadr = wp.atomic_add(efc_nnz_out, worldid, 1)
       if rowadr + 1 > njmax_nnz_in:
+        efc_J_rownnz_out[worldid, efcid] = 0  # dropped row: never read efc.J through a stale address
         return
       efc_J_rowadr_out[worldid, efcid] = rowadr
       efc_J_colind_out[worldid, 0, rowadr] = dofid
@@ -1948,6 +1952,7 @@ def _friction_tendon(is_sparse: bool, newton: bool):
       efc_J_rownnz_out[worldid, efcid] = rownnz_tenJ
       rowadr_efc = wp.atomic_add(efc_nnz_out, worldid, rownnz_tenJ)
       if rowadr_efc + rownnz_tenJ > njmax_nnz_in:
+        efc_J_rownnz_out[worldid, efcid] = 0  # dropped row: never read efc.J through a stale address
         return
       efc_J_rowadr_out[worldid, efcid] = rowadr_efc
 
@@ -2078,6 +2083,7 @@ def _limit_slide_hinge(is_sparse: bool, newton: bool):
         efc_J_rownnz_out[worldid, efcid] = 1
         rowadr = wp.atomic_add(efc_nnz_out, worldid, 1)
         if rowadr + 1 > njmax_nnz_in:
+          efc_J_rownnz_out[worldid, efcid] = 0  # dropped row: never read efc.J through a stale address
           return
         efc_J_rowadr_out[worldid, efcid] = rowadr
         efc_J_colind_out[worldid, 0, rowadr] = dofadr
@@ -2200,6 +2206,7 @@ def _limit_ball(is_sparse: bool, newton: bool):
         efc_J_rownnz_out[worldid, efcid] = 3
         rowadr = wp.atomic_add(efc_nnz_out, worldid, 3)
         if rowadr + 3 > njmax_nnz_in:
+          efc_J_rownnz_out[worldid, efcid] = 0  # dropped row: never read efc.J through a stale address
           return
         efc_J_rowadr_out[worldid, efcid] = rowadr
 
@@ -2333,6 +2340,7 @@ def _limit_tendon(is_sparse: bool, newton: bool):
         efc_J_rownnz_out[worldid, efcid] = rownnz_tenJ
         rowadr_efc = wp.atomic_add(efc_nnz_out, worldid, rownnz_tenJ)
         if rowadr_efc + rownnz_tenJ > njmax_nnz_in:
+          efc_J_rownnz_out[worldid, efcid] = 0  # dropped row: never read efc.J through a stale address
           return
         efc_J_rowadr_out[worldid, efcid] = rowadr_efc
 
